@@ -157,6 +157,16 @@ def run(chk, replay=None):
                         v = [int(x) for x in numpy.asarray(a).reshape(-1)]
                         last = {'k': kind, 'v': v}
                         numeric.append((si, op, v + [read_fscale()], float(r.observed_statistic), had_region))
+            elif op == 'deepcopy':
+                import copy as _copy
+                r = guarded(_copy.deepcopy, cat)
+                if not isinstance(r, Raised):
+                    cat = r
+            elif op == 'pickle':
+                import pickle
+                r = guarded(lambda: pickle.loads(pickle.dumps(cat)))
+                if not isinstance(r, Raised):
+                    cat = r
             elif op in ('scale_half', 'scale_one', 'scale_two'):
                 r = guarded(fc.scale, {'scale_half': 0.5, 'scale_one': 1.0, 'scale_two': 2.0}[op])
             elif op == 'to_dict':
